@@ -100,80 +100,78 @@ Proof.
 Qed.
 
 (* ------------------------------------------------------------------ rank lists *)
-Definition rank_pred (hasSel : bool) (nz nv : nat) (item : Z) (useSel useVerr : bool) (r : row) : bool :=
+Definition rank_pred (hasSel : bool) (nz nv : nat) (item : Z) (useSel useVerr useCoord : bool) (r : row) : bool :=
   let icol := useSel && hasSel in
   let item' := if (nz =? 0)%nat then (-1)%Z else item in
   let useV := useVerr && (0 <=? item')%Z && (Z.to_nat item' <? nv)%nat in
-  (negb icol || sel_pass r) &&
+  (negb icol || is_active hasSel r) &&
+  (negb useCoord || coords_defined r) &&
   ((item' <? 0)%Z || isdef (nth (Z.to_nat item') (r_vals r) None)) &&
   (negb useV || verr_pass (Z.to_nat item') r).
 
-Lemma ranks_active_filter hasSel nz nv item useSel useVerr db :
-  ranks_active hasSel nz nv [] item useSel useVerr db =
-  filter (fun i => rank_pred hasSel nz nv item useSel useVerr (nth_row db i)) (seq 0 (length db)).
+Lemma ranks_active_filter hasSel nz nv item useSel useVerr useCoord db :
+  ranks_active hasSel nz nv [] item useSel useVerr useCoord db =
+  filter (fun i => rank_pred hasSel nz nv item useSel useVerr useCoord (nth_row db i)) (seq 0 (length db)).
 Proof. reflexivity. Qed.
 
-Lemma rank_pred_active hasSel nz nv item useVerr db i :
-  sel_wf hasSel db -> (i < length db)%nat ->
-  rank_pred hasSel nz nv item true useVerr (nth_row db i) = true -> is_active hasSel (nth_row db i) = true.
+(* whatever the values found in the selection column (0/1, undefined, negative, tiny) *)
+Lemma rank_pred_kept hasSel nz nv item useVerr useCoord r :
+  rank_pred hasSel nz nv item true useVerr useCoord r = true -> row_kept hasSel useCoord r = true.
 Proof.
-  intros W Hi H. destruct hasSel; [|reflexivity].
-  unfold rank_pred in H. cbn [andb negb orb] in H.
-  rewrite <- (W eq_refl (nth_row db i)) by (apply nth_In; exact Hi).
-  destruct (sel_pass (nth_row db i)); [reflexivity|discriminate].
+  unfold rank_pred, row_kept. cbn [andb]. intro H.
+  apply andb_true_iff in H. destruct H as [H _]. apply andb_true_iff in H. destruct H as [H _].
+  apply andb_true_iff in H. destruct H as [H1 H2]. rewrite H2, andb_true_r.
+  destruct hasSel; [exact H1|reflexivity].
 Qed.
 
-Lemma nth_row_reduce hasSel db a :
-  (a < length (kept_rows hasSel db))%nat -> nth_row (reduce_db hasSel db) a = nth_row db (ren (kept_rows hasSel db) a).
+Lemma nth_row_reduce hasSel uc db a :
+  (a < length (kept_rows hasSel uc db))%nat -> nth_row (reduce_db hasSel uc db) a = nth_row db (ren (kept_rows hasSel uc db) a).
 Proof. intro H. unfold nth_row, reduce_db. apply nth_lsub. exact H. Qed.
 
-Lemma ranks_active_reduce hasSel nz nv item useVerr db :
-  sel_wf hasSel db ->
-  ranks_active hasSel nz nv [] item true useVerr db =
-  map (ren (kept_rows hasSel db)) (ranks_active hasSel nz nv [] item true useVerr (reduce_db hasSel db)).
+Lemma ranks_active_reduce hasSel nz nv item useVerr useCoord db :
+  ranks_active hasSel nz nv [] item true useVerr useCoord db =
+  map (ren (kept_rows hasSel useCoord db)) (ranks_active hasSel nz nv [] item true useVerr useCoord (reduce_db hasSel useCoord db)).
 Proof.
-  intro W. rewrite !ranks_active_filter. unfold kept_rows at 1.
-  rewrite (filter_sub (fun i => is_active hasSel (nth_row db i))
-                      (fun i => rank_pred hasSel nz nv item true useVerr (nth_row db i)) (length db))
-    by (intros i Hi H; apply (rank_pred_active hasSel nz nv item useVerr db i W Hi H)).
-  fold (kept_rows hasSel db). f_equal.
+  rewrite !ranks_active_filter. unfold kept_rows at 1.
+  rewrite (filter_sub (fun i => row_kept hasSel useCoord (nth_row db i))
+                      (fun i => rank_pred hasSel nz nv item true useVerr useCoord (nth_row db i)) (length db))
+    by (intros i Hi H; apply (rank_pred_kept hasSel nz nv item useVerr useCoord _ H)).
+  fold (kept_rows hasSel useCoord db). f_equal.
   unfold reduce_db at 2. rewrite length_lsub.
   apply filter_ext_in. intros a Ha. apply in_seq in Ha. rewrite nth_row_reduce by lia. reflexivity.
 Qed.
 
-(* the list contains exactly the active samples where the variable is defined (no verr test), in increasing order *)
-Lemma ranks_active_spec hasSel nz nv item db i :
-  sel_wf hasSel db -> (0 < nz)%nat -> (0 <= item)%Z ->
-  (In i (ranks_active hasSel nz nv [] item true false db) <->
-   (i < length db)%nat /\ is_active_and_defined hasSel (Z.to_nat item) (nth_row db i) = true).
+(* the list contains exactly the active samples (with coordinates, when asked) where the variable is defined *)
+Lemma ranks_active_spec hasSel nz nv item useCoord db i :
+  (0 < nz)%nat -> (0 <= item)%Z ->
+  (In i (ranks_active hasSel nz nv [] item true false useCoord db) <->
+   (i < length db)%nat /\ is_active_and_defined hasSel (Z.to_nat item) (nth_row db i) = true /\
+   (useCoord = true -> coords_defined (nth_row db i) = true)).
 Proof.
-  intros W Hnz Hit. rewrite ranks_active_filter, filter_In, in_seq.
+  intros Hnz Hit. rewrite ranks_active_filter, filter_In, in_seq.
   unfold rank_pred, is_active_and_defined. cbn [andb negb orb].
   destruct (Nat.eqb_spec nz 0) as [E|E]; [lia|].
   assert (Hlt : (item <? 0)%Z = false) by (apply Z.ltb_ge; exact Hit). rewrite Hlt. cbn [orb].
   rewrite andb_true_r.
-  split.
-  - intros [Hi H]. split; [lia|]. destruct hasSel; cbn [negb orb] in *.
-    + apply andb_true_iff in H. destruct H as [H1 H2]. rewrite H2, andb_true_r.
-      rewrite <- (W eq_refl (nth_row db i)) by (apply nth_In; lia). exact H1.
-    + exact H.
-  - intros [Hi H]. split; [lia|]. destruct hasSel; cbn [negb orb] in *.
-    + apply andb_true_iff in H. destruct H as [H1 H2]. rewrite H2, andb_true_r.
-      rewrite (W eq_refl (nth_row db i)) by (apply nth_In; lia). exact H1.
-    + exact H.
+  set (r := nth_row db i).
+  assert (EA : (negb hasSel || is_active hasSel r) = is_active hasSel r) by (destruct hasSel; reflexivity).
+  rewrite EA.
+  destruct (is_active hasSel r), useCoord, (coords_defined r), (isdef (nth (Z.to_nat item) (r_vals r) None));
+    cbn [andb negb orb]; split; intros [H1 H2]; try discriminate; try (destruct H2; discriminate);
+    repeat split; try lia; try reflexivity; try (intro; reflexivity); try (intro; discriminate);
+    try (destruct H2 as [_ H2]; specialize (H2 eq_refl); discriminate).
 Qed.
 
-Lemma ranks_active_sorted hasSel nz nv item useSel useVerr db :
-  StronglySorted lt (ranks_active hasSel nz nv [] item useSel useVerr db).
+Lemma ranks_active_sorted hasSel nz nv item useSel useVerr useCoord db :
+  StronglySorted lt (ranks_active hasSel nz nv [] item useSel useVerr useCoord db).
 Proof. rewrite ranks_active_filter. apply filter_seq_sorted. Qed.
 
-Lemma multiple_ranks_reduce hasSel nz nv ivars useVerr db :
-  sel_wf hasSel db ->
-  multiple_ranks_active hasSel nz nv ivars [] true useVerr db =
-  map (map (ren (kept_rows hasSel db))) (multiple_ranks_active hasSel nz nv ivars [] true useVerr (reduce_db hasSel db)).
+Lemma multiple_ranks_reduce hasSel nz nv ivars useVerr useCoord db :
+  multiple_ranks_active hasSel nz nv ivars [] true useVerr useCoord db =
+  map (map (ren (kept_rows hasSel useCoord db)))
+      (multiple_ranks_active hasSel nz nv ivars [] true useVerr useCoord (reduce_db hasSel useCoord db)).
 Proof.
-  intro W. unfold multiple_ranks_active. rewrite map_map. apply map_ext. intro jv.
-  apply ranks_active_reduce. exact W.
+  unfold multiple_ranks_active. rewrite map_map. apply map_ext. intro jv. apply ranks_active_reduce.
 Qed.
 
 (* ------------------------------------------------------------------ matrices *)
@@ -196,34 +194,46 @@ Proof.
 Qed.
 
 Lemma cov_matrix_reduce cov hasSel nz nv ivars jvars db :
-  sel_wf hasSel db ->
   cov_matrix cov hasSel nz nv ivars jvars db =
-  cov_matrix (fun iv a jv b => cov iv (ren (kept_rows hasSel db) a) jv (ren (kept_rows hasSel db) b))
-             hasSel nz nv ivars jvars (reduce_db hasSel db).
+  cov_matrix (fun iv a jv b => cov iv (ren (kept_rows hasSel true db) a) jv (ren (kept_rows hasSel true db) b))
+             hasSel nz nv ivars jvars (reduce_db hasSel true db).
 Proof.
-  intro W. unfold cov_matrix. rewrite (multiple_ranks_reduce hasSel nz nv ivars false db W).
-  rewrite (multiple_ranks_reduce hasSel nz nv jvars false db W). apply mat_on_rename.
+  unfold cov_matrix. rewrite (multiple_ranks_reduce hasSel nz nv ivars false true db).
+  rewrite (multiple_ranks_reduce hasSel nz nv jvars false true db). apply mat_on_rename.
 Qed.
 Lemma cov_matrix_sym_reduce cov hasSel nz nv ivars db :
-  sel_wf hasSel db ->
   cov_matrix_sym cov hasSel nz nv ivars db =
-  cov_matrix_sym (fun iv a jv b => cov iv (ren (kept_rows hasSel db) a) jv (ren (kept_rows hasSel db) b))
-                 hasSel nz nv ivars (reduce_db hasSel db).
+  cov_matrix_sym (fun iv a jv b => cov iv (ren (kept_rows hasSel true db) a) jv (ren (kept_rows hasSel true db) b))
+                 hasSel nz nv ivars (reduce_db hasSel true db).
 Proof.
-  intro W. unfold cov_matrix_sym. rewrite (multiple_ranks_reduce hasSel nz nv ivars true db W). apply mat_on_rename.
+  unfold cov_matrix_sym. rewrite (multiple_ranks_reduce hasSel nz nv ivars true true db). apply mat_on_rename.
 Qed.
 Lemma drift_matrix_reduce drift hasSel nz nv ivars ncols useVerr db :
-  sel_wf hasSel db ->
   drift_matrix drift hasSel nz nv ivars ncols useVerr db =
-  drift_matrix (fun iv a jb => drift iv (ren (kept_rows hasSel db) a) jb) hasSel nz nv ivars ncols useVerr (reduce_db hasSel db).
+  drift_matrix (fun iv a jb => drift iv (ren (kept_rows hasSel true db) a) jb) hasSel nz nv ivars ncols useVerr (reduce_db hasSel true db).
 Proof.
-  intro W. unfold drift_matrix. rewrite (multiple_ranks_reduce hasSel nz nv ivars useVerr db W).
+  unfold drift_matrix. rewrite (multiple_ranks_reduce hasSel nz nv ivars useVerr true db).
   rewrite combine_map_r, flat_map_map. apply flat_map_ext. intros [iv idx]. cbn [fst snd]. rewrite map_map. reflexivity.
 Qed.
 
+(* every sample that owns a row of a covariance / drift matrix is active and has all its coordinates *)
+Lemma matrix_rows_usable hasSel nz nv ivars useVerr db idx i :
+  In idx (multiple_ranks_active hasSel nz nv ivars [] true useVerr true db) -> In i idx ->
+  (i < length db)%nat /\ is_active hasSel (nth_row db i) = true /\ coords_defined (nth_row db i) = true.
+Proof.
+  unfold multiple_ranks_active. intros H Hi. apply in_map_iff in H. destruct H as [jv [E _]]. subst idx.
+  rewrite ranks_active_filter in Hi. apply filter_In in Hi. destruct Hi as [Hi H]. apply in_seq in Hi.
+  pose proof (rank_pred_kept _ _ _ _ _ _ _ H) as K. unfold row_kept in K. cbn [negb orb] in K.
+  apply andb_true_iff in K. split; [lia|exact K].
+Qed.
+
 (* the reduced table is the filtered table *)
-Lemma reduce_db_filter hasSel db : reduce_db hasSel db = reduce_rows hasSel db.
-Proof. unfold reduce_db, reduce_rows, kept_rows, nth_row. symmetry. apply filter_as_lsub. Qed.
+Lemma reduce_db_filter hasSel uc db : reduce_db hasSel uc db = filter (row_kept hasSel uc) db.
+Proof. unfold reduce_db, kept_rows, nth_row. symmetry. apply filter_as_lsub. Qed.
+Lemma reduce_db_rows hasSel db : reduce_db hasSel false db = reduce_rows hasSel db.
+Proof.
+  rewrite reduce_db_filter. unfold reduce_rows. apply filter_ext. intro r. unfold row_kept. cbn [negb orb]. apply andb_true_r.
+Qed.
 
 (* ------------------------------------------------------------------ targets *)
 Lemma nth_combine_seq {A} (l : list A) d i : (i < length l)%nat -> nth i (combine (seq 0 (length l)) l) (O, d) = (i, nth i l d).
@@ -256,6 +266,51 @@ Proof.
     + discriminate.
     + intros _. apply skipn_app_exact. exact Hlen.
   - repeat split.
+    + apply firstn_app_exact. exact Hlen.
+    + intros _. apply skipn_app_exact. exact Hlen.
+    + discriminate.
+Qed.
+
+(* ------------------------------------------------------------------ turning bands *)
+Lemma band_minmax_reduce hasSel nz proj init l :
+  band_minmax hasSel nz proj init l = band_minmax hasSel nz proj init (reduce_simu hasSel nz l).
+Proof.
+  unfold band_minmax, reduce_simu. apply fold_left_skip. intros st r H. unfold band_step. unfold simu_kept in H.
+  rewrite H. reflexivity.
+Qed.
+Lemma simu_active_array_spec hasSel nz l i :
+  nth i (simu_active_array hasSel nz l) false = true -> is_active hasSel (nth i l dummy_row) = true /\ simu_usable nz (nth i l dummy_row) = true.
+Proof.
+  unfold simu_active_array. intro H.
+  destruct (Nat.lt_ge_cases i (length l)) as [L|G].
+  - rewrite (nth_indep _ false ((fun r => is_active hasSel r && simu_usable nz r) dummy_row)) in H by (rewrite map_length; exact L).
+    rewrite (map_nth (fun r => is_active hasSel r && simu_usable nz r) l dummy_row i) in H. apply andb_true_iff in H. exact H.
+  - rewrite nth_overflow in H by (rewrite map_length; exact G). discriminate.
+Qed.
+
+Lemma run_simu_targets_spec nold nnew sim ts it d :
+  (it < length ts)%nat -> length (t_cells (nth it ts d)) = nold ->
+  let t := nth it ts d in
+  let t' := nth it (run_simu_targets nold nnew sim ts) d in
+  t_active t' = t_active t /\
+  firstn nold (t_cells t') = t_cells t /\
+  (t_active t = false -> skipn nold (t_cells t') = repeat None nnew) /\
+  (t_active t = true -> skipn nold (t_cells t') = sim it).
+Proof.
+  intros Hit Hlen. cbn zeta. unfold run_simu_targets.
+  set (F := fun it0 : nat * trow => simu_at nold nnew (sim (fst it0)) (snd it0)).
+  rewrite (nth_indep _ d (F (O, d))) by (rewrite map_length, combine_length, seq_length; lia).
+  rewrite (map_nth F (combine (seq 0 (length ts)) ts) (O, d) it).
+  rewrite nth_combine_seq by exact Hit. unfold F. cbn [fst snd].
+  set (t := nth it ts d) in *. unfold simu_at. cbn [t_active t_cells].
+  destruct (t_active t) eqn:E; cbn [t_active t_cells].
+  - rewrite (firstn_app_exact (t_cells t) _ nold Hlen).
+    repeat split.
+    + apply firstn_app_exact. exact Hlen.
+    + discriminate.
+    + intros _. apply skipn_app_exact. exact Hlen.
+  - rewrite (firstn_app_exact (t_cells t) _ nold Hlen).
+    repeat split.
     + apply firstn_app_exact. exact Hlen.
     + intros _. apply skipn_app_exact. exact Hlen.
     + discriminate.
